@@ -38,7 +38,7 @@ PROPS = {
     "C14": dict(quick=["mig"], thorough=["mig", "migarb"], drive=[("migrate", 2, 40, 250)]),
     "C15": dict(quick=["mig", "migarb"], thorough=["mig", "migarb"], drive=[("migrate", 2, 40, 250)]),
     "C16": dict(quick=["book1", "book2", "mig"], thorough=["book1", "book2", "mig"], drive=[("mixed", 2, 40, 250)]),
-    "C17": dict(quick=["book1", "fee", "marker", "auth"], thorough=["book1", "fee", "marker", "auth"],
+    "C17": dict(quick=["book1", "fee", "marker", "auth", "mig"], thorough=["book1", "fee", "marker", "auth", "mig", "frac"],
                 drive=[("mixed", 2, 40, 250)]),
 }
 ALL_PROPS = ["C%02d" % i for i in range(1, 18)]
